@@ -614,10 +614,10 @@ func (f *frame) execBuiltin(v ssa.Value, bi *ssa.Builtin, cm *ssa.CallCommon, g 
 			}
 		case *types.Basic:
 			f.set(v, Term{app("slen_", a), SInt})
-			vc.assume(True, Ge(f.vals[v], IntLit(0)))
+			vc.assume(g, Ge(f.vals[v], IntLit(0)))
 		case *types.Map:
 			f.set(v, vc.mapLen(st, a))
-			vc.assume(True, Ge(f.vals[v], IntLit(0)))
+			vc.assume(g, Ge(f.vals[v], IntLit(0)))
 		case *types.Array:
 			f.set(v, IntLit(u.Len()))
 		case *types.Pointer:
